@@ -444,3 +444,69 @@ def factor_cases(rng, n):
                     a, b = ('rep', x, 50, 50 + i - 1), ('rep', y, 50, 50 + j - 1)
             out.append(('alt', [('seq', [a, SEP, b])]))
     return out
+
+
+# ---- nested-operator family: operator over group over operator, systematically --------------------------------
+# (the operand of the outer operator is a group whose body is - or contains - another operator site; when the inner
+# site is a large repeat the group's body is a bare helper non-terminal of the factored scheme)
+NEST_INNER = ['?', '*', '+', (2, 2), (1, 3), (0, 2), (50, 50), (51, 51), (64, 64), (0, 50), (49, 50), (50, 52), (3, 60)]
+NEST_OUTER = ['?', '*', '+', (2, 2), (0, 2), (1, 3)]
+NEST_INNER_CORE = ['+', (2, 2), (50, 50), (0, 50), (50, 52)]
+NEST_OUTER_CORE = ['?', '*', '+', (2, 2)]
+
+
+def nested_cases():
+    """(label, expression): deterministic, independent of the seed"""
+    x = ('sym', 0)
+    out = []
+
+    def grp(*items):
+        return ('alt', [('seq', list(items))])
+    for io in NEST_INNER:
+        for oo in NEST_OUTER:
+            out.append(('plain:%s:%s' % (op_text(io), op_text(oo)), grp(apply_op(oo, grp(apply_op(io, x))))))
+    for io in NEST_INNER_CORE:
+        for oo in NEST_OUTER_CORE:
+            out.append(('double:%s:%s' % (op_text(io), op_text(oo)),
+                        grp(apply_op(oo, grp(grp(apply_op(io, x)))))))
+            out.append(('trailing:%s:%s' % (op_text(io), op_text(oo)),
+                        grp(apply_op(oo, grp(apply_op(io, x), ('sym', 1))))))
+            out.append(('seqoperand:%s:%s' % (op_text(io), op_text(oo)),
+                        grp(apply_op(oo, grp(apply_op(io, grp(x, ('sym', 1))))))))
+    # a large repeat outside: the helper rules of the factored scheme repeat a group that holds an operator site
+    for io in ('+', '?', (2, 2), (50, 50)):
+        for oo in ((50, 50), (0, 50)):
+            out.append(('plain:%s:%s' % (op_text(io), op_text(oo)), grp(apply_op(oo, grp(apply_op(io, x))))))
+    # three levels
+    for ops in (('+', (50, 50), '+'), ((50, 50), '+', '?'), ('*', (2, 2), (64, 64)), ((51, 51), '?', '+')):
+        e = x
+        for o in reversed(ops):
+            e = grp(apply_op(o, e))
+        out.append(('three:' + ':'.join(op_text(o) for o in ops), e))
+    return out
+
+
+def op_bounds(o):
+    return {'?': (0, 1), '*': (0, None), '+': (1, None)}[o] if isinstance(o, str) else o
+
+
+def nested_words(label, e, maxlen=420):
+    """inputs with 0, 1, 2, 3 blocks whose occurrence counts sit at the inner bounds, and one off"""
+    kind = label.split(':')[0]
+    unit = 'ab' if kind == 'seqoperand' else 'a'
+    tail = 'b' if kind == 'trailing' else ''
+    inner = [x for x in subexprs(e) if x[0] in ('opt', 'star', 'plus', 'rep')]
+    b = inner[-1]                                # the innermost operator site
+    lo, hi = {'opt': (0, 1), 'star': (0, None), 'plus': (1, None)}.get(b[0]) or (b[2], b[3])
+    hi2 = hi if hi is not None else lo + 2
+    words = set()
+    shapes = [[], [lo], [hi2], [lo, lo], [hi2, lo], [hi2, hi2], [lo, lo, lo]]
+    if hi2 - lo > 8:
+        # wide inner range: every split of a long input is a parse (cubic for Earley) - two blocks are enough
+        shapes = [[], [lo], [hi2], [lo, lo], [hi2, lo]]
+    for blocks in shapes:
+        w = ''.join(unit * n + tail for n in blocks)
+        for v in (w, w + unit[0], w[:-1] if w else w):
+            if len(v) <= maxlen:
+                words.add(v)
+    return sorted(words, key=lambda v: (len(v), v))
